@@ -86,7 +86,7 @@ EvalNode(S, i, t) ==
     LET n   == Node(i)
         iv  == [k \in 1..Len(n.ins) |-> S.val[n.ins[k]]]
         iok == [k \in 1..Len(n.ins) |-> Valid(S, n.ins[k])]
-        anyTick == \E k \in ActiveIns(n) : k <= Len(n.ins) /\ Ticked(S, n.ins[k], t)
+        anyTick == \E k \in ActiveInsS(n, S.st[i]) : k <= Len(n.ins) /\ Ticked(S, n.ins[k], t)
         allOk   == \A k \in ValidIns(n) : k <= Len(n.ins) => iok[k]
     IN
     CASE n.kind = "src" ->
